@@ -10,7 +10,7 @@ use crate::rt::Disc;
 fn strategy() -> impl Strategy<Value = History> {
     let all_sites: Vec<usize> = (0..cm::SITES.len()).collect();
     (
-        prop_oneof![3 => Just(StoreKind::Ref), 3 => Just(StoreKind::Memory), 1 => Just(StoreKind::OptionSlot)],
+        prop_oneof![3 => Just(StoreKind::Ref), 3 => Just(StoreKind::Memory), 1 => Just(StoreKind::OptionSlot), 1 => Just(StoreKind::RefInMutex), 1 => Just(StoreKind::RefInRwLock), 1 => Just(StoreKind::RefInArcMutex), 1 => Just(StoreKind::RefInArcRwLock)],
         prop_oneof![Just(Disc::Full), Just(Disc::ForcedDiscoverable)],
         // hmac-secret configurations under which a PRF request at registration cannot be refused (C09 owns the refusals)
         (cm::auth_cfg(), prop_oneof![2 => Just(crate::cer::HmacCfg::None), 1 => Just(crate::cer::HmacCfg::WithoutUv), 1 => Just(crate::cer::HmacCfg::WithoutUvMc)]).prop_map(|(mut c, h)| {
